@@ -1,17 +1,20 @@
-(** C12 - where a second write is NOT the same file: gradings with expansions.
+(** C12 - the defect repaired by fixes/C12-4.diff (/repo 79421ab), on the payload model of C04: BEFORE the repair a
+    second write was NOT the same file when gradings carry expansions.
 
     The code accepts coincident wires whose gradings are equal up to constants.TOL (Grading.__eq__ in
     WireManagerBase.check_consistency), and WirePropagateManager.copy_neighbours lets the last DEFINED
     coincident wire win.  In the first run a wire of an un-chopped axis can be fully defined by the
-    neighbours graded before it; in the second run every wire of the mesh is defined, so the wire takes
+    neighbours graded before it; in an un-reset second run every wire of the mesh is defined, so the wire took
     the (tolerance-equal, not equal) grading of a neighbour that comes later in its coincident list.
+    ([second] below is that un-reset second run: C04's grade_blocks / propagate applied to the final state of the
+    first run.  The repaired code resets first: its second run is [final] again, literally the first run.)
 
     The witness below is that mesh on the payload model of C04 (Model/C04_Payload.v, imported as it is):
     four unit boxes A = [0,1]x[1,2], C = [2,3]x[1,2], P = [1,2]x[1,2], B = [1,2]x[0,1] (x [0,1] in z), in this
     order; all chopped by count 3 along x and y; along z: A and C 10 cells with total expansion 2,
     B 10 cells with total expansion 2 + 1e-8, P nothing.  All four z-wires of P coincide with wires of
     A or C (graded before P); two of them also with wires of B (graded after P).
-    Python reproduction against /repo: notes/C12.md. *)
+    Python reproduction (on /repo before 79421ab; passes since): corpus/C12/repro_second_write_tolerance.py. *)
 From Coq Require Import List Bool Arith ZArith QArith.
 From CB Require Import Model.Propagate Model.C04_Payload.
 Import ListNotations.
@@ -81,6 +84,7 @@ Definition summary (bs : list blk4) (tau : Q) (eor : wire -> nat -> Q) (oc : wir
   | None => None
   end.
 
+(** exact idempotence of the UN-RESET second run *)
 Definition exact_second_write : Prop :=
   forall bs tau eor o_coin o_nbrs s s',
     final bs eor o_coin o_nbrs = Some s ->
